@@ -42,7 +42,9 @@ SIG = "src/y0/algorithm/separation/sigma_separation.py"
 GR = "src/y0/graph.py"
 LAT = "src/y0/algorithm/simplify_latent.py"
 
-GROUP_RUN = {"ci": ["C04", "C15"], "sigma": ["C20"], "graph": ["C14"], "latent": ["C16"]}
+GROUP_RUN = {"ci": ["C04", "C15"], "sigma": ["C20"], "graph": ["C14"], "latent": ["C16"], "sepG": []}
+DSL = "src/y0/dsl.py"
+PARSER = "src/y0/parser/internal.py"
 EQ, OUT = "equivalent", "outside-property"
 
 
@@ -115,7 +117,7 @@ MUTANTS = [
       "max instead of min: with return_all=True the largest separating set is kept", run=["C15"]),
     M("c02", "ci", CI, "    judgements = sorted(judgements, key=_judgement_grouper)\n", "    judgements = list(judgements)\n", OUT,
       "groupby without sorting: d_separations already yields the judgements of one pair consecutively; only minimal() on an arbitrary list differs", run=["C15"]),
-    M("c03", "ci", CI, "    return judgement.left, judgement.right\n", "    return judgement.left, judgement.left\n", ["C15"],
+    M("c03", "ci", CI, "    return str(judgement.left), str(judgement.right)\n", "    return str(judgement.left), str(judgement.left)\n", ["C15"],
       "stale field: judgements are grouped by their left node only, one pair per left node survives", run=["C15"]),
     M("c04", "ci", CI, "    return (\n        len(judgement.conditions),\n        sum(order.index(v) for v in judgement.conditions),\n    )\n",
       "    return (\n        sum(order.index(v) for v in judgement.conditions),\n        len(judgement.conditions),\n    )\n", ["C15"],
@@ -141,7 +143,7 @@ MUTANTS = [
       "missing set(): duplicates of the iterable stay in the record (create() called directly; are_d_separated hands over a set)"),
     M("s04", "ci", ST, "        conditions = tuple(sorted(set(conditions), key=str))\n", "        conditions = tuple(set(conditions))\n", ["C04", "C15"],
       "sorted vs unsorted: hash order of the set leaks into the record"),
-    M("s05", "ci", ST, "            self.left < self.right\n", "            self.left <= self.right\n", ["C04"],
+    M("s05", "ci", ST, "            str(self.left) < str(self.right)\n", "            str(self.left) <= str(self.right)\n", ["C04"],
       "< vs <=: a record with left == right counts as canonical"),
     M("s07", "ci", ST, "        separated: bool = True,\n    ) -> DSeparationJudgement:\n", "        separated: bool = False,\n    ) -> DSeparationJudgement:\n", OUT,
       "changed default of create(): every caller named by the property passes `separated` explicitly"),
@@ -429,6 +431,46 @@ MUTANTS = [
       "rule 3 reports but does not remove: single-child exogenous latents stay, projection unchanged"),
     M("k43", "latent", LAT, "    lv_dag = NxMixedGraph.to_latent_variable_dag(graph, tag=tag)\n    if latents is not None:\n", "    lv_dag = NxMixedGraph.to_latent_variable_dag(graph, tag=tag)\n    if latents:\n", EQ,
       "truthiness vs `is not None`: an empty collection marks nothing either way; a one-shot iterable is truthy"),
+
+    # =============================================================== group sepG: mutants aimed at exactly the shapes that the
+    # generator extension of round 5 added (deep collider descendants / ancestral depth, fully conditioned districts, large
+    # separators, name kinds, integer cut-offs, the strongly-connected-component rule with non-adjacent endpoints, aliasing of
+    # returned graphs, counterfactual-variable nodes, duplicates, tag values, parser-table names, DSL operators).
+    #     python3 tools/mutants_A.py --repo /work/sepG/repo --group sepG --json tools/mutants_G.last.json --md tools/mutants_G.md
+    M("u01", "sepG", CI, "    keep = graph.ancestors_inclusive(named)\n",
+      "    keep = set(named)\n    for _ in range(2):\n        keep |= {p for n in keep for p in graph.directed.predecessors(n)}\n", ["C04", "C15"],
+      "ancestral set truncated at depth 2 (parents and grandparents of the named nodes): a collider opened by a conditioned descendant three or more steps below, "
+      "or a common ancestor three steps above both endpoints, is lost (the emulated mutant of gap review G04-1: 0 verdicts changed before the structured shapes)", run=["C04", "C15"]),
+    M("u02", "sepG", CI, "    keep = graph.ancestors_inclusive(named)\n",
+      "    keep = set(named)\n    for _ in range(3):\n        keep |= {p for n in keep for p in graph.directed.predecessors(n)}\n", ["C04", "C15"],
+      "ancestral set truncated at depth 3: needs a descendant chain of four steps below a collider, or a fork four steps above both endpoints (>= 7 nodes)", run=["C04", "C15"]),
+    M("u03", "sepG", CI, "        clique = district | ancestral_graph.get_markov_pillow(district)\n",
+      "        clique = district | ancestral_graph.get_markov_pillow(district - conditions)\n", ["C04"],
+      "'conditioned members are deleted anyway': only the parents of the UNCONDITIONED members of a district join its clique, so private parents of different conditioned "
+      "members are not married (a -> m <-> n <- b given {m, n}; a variant of seeded/C04c that also hits partly conditioned districts). C15: a pair is mis-judged only with "
+      "conditioned district members, never with the empty set, and the pairs it affects are connected given the empty set as well in most graphs", run=["C04", "C15"]),
+    M("u04", "sepG", CI, "        stop = None if max_conditions is None else max_conditions + 1\n",
+      "        stop = 5 if max_conditions is None else min(max_conditions + 1, 5)\n", ["C15"],
+      "size cap: conditioning sets of five or more nodes are never tried (pairs whose minimum separator has size >= 5: five or six parallel routes)", run=["C15"]),
+    M("u05", "sepG", ST, "        left, right = sorted([left, right], key=str)\n", "        left, right = sorted([left, right], key=lambda v: (len(str(v)), str(v)))\n", ["C04", "C15"],
+      "shorter name first: with equal-length names (A00..A99) this IS the string order; with names of different lengths (X10 vs X2, a vs B1, counterfactual nodes) the record is not canonical", run=["C04", "C15"]),
+    M("v01", "sepG", SIG, "        for path in nx.all_simple_paths(graph.disorient(), left, right, cutoff=cutoff)\n",
+      "        for path in nx.all_simple_paths(graph.disorient(), left, right, cutoff=cutoff and min(cutoff, 4))\n", ["C20"],
+      "an explicit integer cut-off is capped at 4: with cutoff >= n-1 the verdict must be the unbounded one, connecting paths of five or more edges are lost (cutoff omitted / None unaffected)", run=["C20"]),
+    M("v02", "sepG", SIG, "        for path in nx.all_simple_paths(graph.disorient(), left, right, cutoff=cutoff)\n",
+      "        for path in nx.all_simple_paths(graph.disorient(), left, right, cutoff=cutoff and cutoff - 1)\n", ["C20"],
+      "off by one in an explicit cut-off (read as a number of NODES): with cutoff = n-1 a connecting path through every node of the graph is lost", run=["C20"]),
+    M("v03", "sepG", SIG, "        and (middle not in conditions or middle in conditions.intersection(sigma[right]))\n",
+      "        and (middle not in conditions or middle in conditions.intersection(sigma[left]))\n", ["C20"],
+      "stale index in the right chain: the class of the node the route comes FROM instead of the node it goes to; unchanged on acyclic graphs (singleton classes), on a cycle "
+      "a conditioned node where the route LEAVES the component is open in one reading direction only (asymmetric); needs non-adjacent endpoints around a cycle", run=["C20"]),
+    M("v04", "sepG", SIG, "        and bool(graph.descendants_inclusive(middle) & conditions)\n",
+      "        and bool(({middle} | set(graph.directed.successors(middle))) & conditions)\n", ["C20"],
+      "descendants replaced by children: a collider whose nearest conditioned descendant is two or more steps below stays closed (cf. seeded/C20d)", run=["C20"]),
+    M("v05", "sepG", SIG, "    d = middle in conditions.intersection(sigma[left]).intersection(sigma[right])\n",
+      "    d = middle in conditions.intersection(sigma[left])\n", ["C20"],
+      "dropped operand in the fork: a conditioned fork node in the component of its LEFT child only is open, i.e. open in one reading direction (asymmetric): a conditioned "
+      "cycle node with one child on the cycle and one child outside its component, non-adjacent endpoints", run=["C20"]),
 ]
 
 
@@ -633,7 +675,7 @@ def summarise(results):
 
 def write_md(path, results, before=None, suite=None):
     suite = suite or {}
-    props = ["C04", "C15", "C20", "C14", "C16"]
+    props = ["C04", "C15", "C20", "C14", "C16", "C12"]
     lines = ["# Mutation campaign A (C04, C15, C20, C14, C16)", "",
              "Generated by `tools/mutants_A.py` (plain quick tier, `VERIF_NO_ESCALATE=1`, seed 0). One hand-written one-site mutant of y0 at a",
              "time in a scratch clone; `breaking` = the mutant violates the statement of the property, `not breaking` = equivalent or",
